@@ -263,3 +263,5 @@ func c17ListenBufferStable() {
 
 func VerifC17_ListenBufferStable() { c17ListenBufferStable() }
 func VerifC10_ListenBufferStable() { c17ListenBufferStable() }
+
+func VerifC17_T_ListenBurst3() { c10Burst(3) }
